@@ -6,7 +6,7 @@
 From Coq Require Import List NArith Bool.
 From SV Require Import SM.FsChain SM.FsChainProofs SM.FsChainRel SM.FsChainRaw SM.FsChainCompose SM.FsChainForms
      SM.FsChainFormsProofs SM.FsChainWhole SM.FsChainWholeProofs SM.FsChainRead SM.FsChainReadProofs SM.FsChainAdd
-     SM.FsChainAddProofs SM.FsChainWalkGen SM.FsChainNoise.
+     SM.FsChainAddProofs SM.FsChainWalkGen SM.FsChainNoise SM.FsChainNoiseRaw.
 Import ListNotations.
 Open Scope N_scope.
 
@@ -39,8 +39,9 @@ Definition cfg_kmember (s : source_cfg) (m : kmember) : Prop :=
   match k_store m with None => True | Some (c, _, _) => In c (s_contents s) end.
 Definition cfg_member (s : source_cfg) (f f0 : str) (m : member) : Prop :=
   (exists b fs p p0, In b (s_backends s) /\ m = member_of b fs p /\ clean_fs fs = true /\ okp p0 /\ spells p p0 /\ okp f0 /\ spells f f0)
-  \/ (exists fs p, f = f0 /\ okp f0 /\ m = raw_member_of (s_raw_rel s) (s_raw_walk s) fs p /\ clean_fs fs = true
-                   /\ NoDup (map (fun e => nkey (fst e)) fs) /\ okp p /\ folder_exact fs p f0).
+  \/ (exists fs p p0, m = raw_member_of (s_raw_rel s) (s_raw_walk s) fs p /\ clean_fs fs = true
+                      /\ NoDup (map (fun e => nkey (fst e)) fs) /\ okp p0 /\ spells p p0 /\ okp f0 /\ spells f f0
+                      /\ folder_exact fs p0 f0).
 
 (** Sentence 1: given the same files, the in-memory, zip and VPK filesystems - and the directory for exact-case names -
     agree on which names exist and return the same bytes, letter case, slash kind and redundant segments insignificant. *)
